@@ -166,6 +166,9 @@ pub fn exec(spec: &Spec, r: &mut RunResult) {
                 if crate::ssim::overlap_tag(&spec.world, op.goal) {
                     sig.push_str("+overlap");
                 }
+                if crate::ssim::nonlinear_impl_header(&spec.world.items.join("\n")) {
+                    sig.push_str("+nonlinear");
+                }
                 if let Ok((prog, _)) = wgen::parse_world(&spec.world) {
                     if let Some(Ok(ast)) = wgen::parse_world(&spec.world).ok().and_then(|(_, g)| g.get(op.goal).cloned()) {
                         let mut gp = vec![];
@@ -210,7 +213,16 @@ pub fn exec(spec: &Spec, r: &mut RunResult) {
                     r.violate(
                         "cache-on-differs-from-cache-off",
                         format!("goal `{}`: recursive solver with cache `{}`, without cache `{}`", spec.world.goals[gi], fmt_out(&on), fmt_out(&off)),
-                        None,
+                        Some(&{
+                            let mut sig = format!("rec:cache-on-differs-from-cache-off{}", crate::ssim::static_tags(&spec.world, gi));
+                            if let (Out::Ans(a), Out::Ans(b)) = (&on, &off) {
+                                let amb = |s: &Sol| s.as_ref().map(|x| x.is_ambig()).unwrap_or(false);
+                                if amb(a) != amb(b) && cmp::contradiction(a, b).is_none() {
+                                    sig.push_str("+one-ambiguous");
+                                }
+                            }
+                            sig
+                        }),
                     );
                 }
             } else {
